@@ -174,7 +174,9 @@ def enumerate_bases(cfg, start, L, kinds, allow_fit):
             w = build(cfg, start + prefix)
         except Exception:  # noqa: BLE001
             return
-        for op in mutators(w, kinds, allow_fit and not any(o[0] == "fit" for o in prefix), 2):
+        ms = mutators(w, kinds, allow_fit and not any(o[0] == "fit" for o in prefix), 2)
+        w.dispose()
+        for op in ms:
             seq = prefix + (op,)
             out.append(seq)
             rec(seq)
@@ -210,6 +212,7 @@ class RefCache(object):
         if k not in self.c:
             w = build(self.cfg, ops)
             self.c[k] = w.observe(obs)
+            w.dispose()
             res.executions += 1
             res.transitions += len(ops)
         return self.c[k]
@@ -303,6 +306,9 @@ def run_job(spec):
         fitted_at_end = bool(full) and full[-1][0] == "fit"
         # minimiser results are only defined (and compared) when the configuration ends in the fitted status
         olist = obs_all + (RESULT_ONLY if fitted_at_end else [])
+        if not has_fit:
+            # a configuration that was never fitted (or whose fit was superseded by new values inside a neutral segment) reports no result matrices
+            olist = olist + ["parameter_cov_mat:none", "parameter_cor_mat:none"]
         # positions: after the start prefix .. before the last op (a deviation after the last op is only a read order question,
         # covered by position == len(base) as well)
         for pos in range(0, len(base) + 1):
@@ -313,6 +319,7 @@ def run_job(spec):
                 _viol(res, cfg, list(prefix), "op", "no exception", "%s: %s" % (type(e).__name__, str(e)[:120]), "exception:" + type(e).__name__)
                 break
             segs = neutral_segments(wp, reads, tier, allow_fit and not has_fit)
+            wp.dispose()
             for seg in segs:
                 ops = prefix + seg + base[pos:]
                 seg_has_fit = fitted_in(seg)
@@ -349,6 +356,7 @@ def run_job(spec):
                         _viol(res, cfg, list(ops) + [("read", o)], o, exp, act, "wrong-value" if not isinstance(act, tuple) else "exception:" + act[1], base=full)
                         break
                 res.outcomes[(ftype, seg_tag(seg).split(":")[0], "ok" if not bad else "MISMATCH")] += 1
+                w.dispose()
     res.sample(dict(cfg=list(cfg), start=[list(o) for o in start], bases=len(bases), example=[_j(o) for o in (bases[len(bases) // 2] if bases else ())]))
     res.facts["cfg:%s:%s:%s" % (ftype, dea, mini)] += 1
     return res.as_dict()
